@@ -388,6 +388,13 @@ def check_siblings_and_validity(w, rep):
         pitch_ok = bs is not None and all((b.cells[1][0].signed_atom() is not None and b.cells[1][0].signed_atom()[1].kind == "asin") for _, b in bs)
         rep.check("C07.euler", "pitch slot is asin(.) on every branch (pitch in [-pi/2, pi/2])", pitch_ok, "the pitch slot is not an asin value on every branch", where=W)
         check_euler_band(w, rep, p, "C07.euler", W)
+    # every entry point INTO the Euler chart needs the same two gimbal selections (a closed-form shortcut that skips
+    # from_Matrix is correct away from the poles and undefined - atan2(0, 0) - on them)
+    Q, Mr, D = w.G("SO3Quat"), w.G("SO3Mrp"), w.G("SO3Dcm")
+    for meth, src in (("from_Quat", Q), ("from_Mrp", Mr), ("from_Dcm", D)):
+        okc, val = guarded(w, rep, "C07.euler", "SO3EulerB321.%s" % meth, lambda: w.call(E, meth, w.fresh(src, "s")[0]))
+        if okc:
+            check_euler_band(w, rep, w.param(val), "C07.euler", w.method_where(E, meth)[:2], label="SO3EulerB321.%s" % meth)
 
 
 def check_euler_band_rule(w, rep, RULE):
@@ -398,7 +405,7 @@ def check_euler_band_rule(w, rep, RULE):
         check_euler_band(w, rep, w.param(val), RULE, w.method_where(E, "from_Matrix")[:2])
 
 
-def check_euler_band(w, rep, p, RULE, W):
+def check_euler_band(w, rep, p, RULE, W, label="SO3EulerB321.from_Matrix"):
     """Both gimbal poles are tested, each with a band of half width <= 1e-3 rad (the documented band) around +-pi/2.
     The test may be written on the angle (fabs(theta -+ pi/2) < w) or on its sine (s > cos w); what is compared is the
     half width in radians, so an equivalent rewrite is accepted and sin(theta) > 1 - 1e-3 (a 2.6 degree band) is not."""
@@ -406,7 +413,7 @@ def check_euler_band(w, rep, p, RULE, W):
     theta = assign_ites(p, {c: False for c in conds}).cells[1][0]       # pitch on the regular branch
     bands = [b for b in (pole_band(c, theta) for c in conds) if b is not None]
     signs = sorted(b[0] for b in bands)
-    inst = "SO3EulerB321.from_Matrix tests both gimbal poles (+pi/2 and -pi/2)"
+    inst = "%s tests both gimbal poles (+pi/2 and -pi/2)" % label
     n_sel = len(ite_conditions(p))
     if signs == [-1, 1]:
         rep.ok(RULE, inst, fact={"poles": signs})
@@ -416,7 +423,7 @@ def check_euler_band(w, rep, p, RULE, W):
     else:
         rep.fail(RULE, inst, "gimbal handling is not symmetric: pole tests for %s only" % (signs or "no pole"), where=W, fact={"poles": signs})
     for sgn, width, _ in bands:
-        rep.check(RULE, "gimbal band at %spi/2 has half width <= 1e-3 rad" % ("+" if sgn > 0 else "-"), 0 < width <= 1e-3 * (1 + 1e-9),
+        rep.check(RULE, "%sgimbal band at %spi/2 has half width <= 1e-3 rad" % ("" if label.endswith("from_Matrix") else label + ": ", "+" if sgn > 0 else "-"), 0 < width <= 1e-3 * (1 + 1e-9),
                   "the degenerate (roll := 0) branch is taken within %.4g rad of the pole, the documented band is 1e-3 rad: conversions are wrong for pitch in between" % width, where=W,
                   fact={"half_width_rad": width})
 
